@@ -2,6 +2,8 @@
      S <schema>          -> "S"           sets the schema for the following lines
      D <dataset>         -> "D"           sets the dataset
      Q <store> <text> <term>  -> "R ok <ids by model eval> <ids by iterate model> <ids by spec>" | "R err" | "R panic"
+     F <float64 bits>    -> "F <hex of the number -> string coercion>"   (fmt_float_go vs strconv.FormatFloat(v,'f',-1,64))
+   The number -> string coercion of floats is the modelled formatter fmt_float_go (Ast/FmtFloat.v).
    Trusted for the correspondence check only. *)
 
 exception Parse_error of string
@@ -125,6 +127,15 @@ and parse_setexpr () : untyped setexpr =
   | "sub" -> let n = next_bytes () in let q = parse_untyped () in SESub (n, q)
   | t -> raise (Parse_error ("setexpr " ^ t))
 
+(* the extracted formatter is a pure function of the bit pattern; the evaluator calls it once per row and
+   comparison, so its results are cached here (per 64-bit pattern) *)
+let fmt_cache : (int64, n list) Hashtbl.t = Hashtbl.create 257
+let fmt_float_go_memo (b : n) : n list =
+  let k = u64_of_n b in
+  match Hashtbl.find_opt fmt_cache k with
+  | Some s -> s
+  | None -> let s = fmt_float_go b in Hashtbl.add fmt_cache k s; s
+
 let ids_str (l : n list list) : string =
   if l = [] then "-" else String.concat "," (List.map hex_of_bytes l)
 
@@ -144,12 +155,13 @@ let () =
         let _text = next () in
         let u = parse_untyped () in
         (match typer !schema store u with
-         | Err -> Printf.printf "R err %s\n" (ids_str (spec_ids fmt_float_int fmt_time_none !schema db store u))
+         | Err -> Printf.printf "R err %s\n" (ids_str (spec_ids fmt_float_go_memo fmt_time_none !schema db store u))
          | Panic -> print_endline "R panic"
          | Ok t ->
-             let q = query_ids fmt_float_int fmt_time_none !schema db store t in
-             let it = iterate_ids fmt_float_int fmt_time_none !schema db store t in
-             let sp = spec_ids fmt_float_int fmt_time_none !schema db store u in
+             let q = query_ids fmt_float_go_memo fmt_time_none !schema db store t in
+             let it = iterate_ids fmt_float_go_memo fmt_time_none !schema db store t in
+             let sp = spec_ids fmt_float_go_memo fmt_time_none !schema db store u in
              let show = function Ok l -> ids_str l | Err -> "err" | Panic -> "panic" in
              Printf.printf "R ok %s %s %s\n" (show q) (show it) (ids_str sp))
+    | "F" :: r -> toks := r; Printf.printf "F %s\n" (hex_of_bytes (fmt_float_go (n_of_hex64 (next ()))))
     | _ -> print_endline "?")
